@@ -379,6 +379,10 @@ def evaluate(ctx, cases):
                 ctx.disagree(c, ip, mp, "parse_iso vs Iso.parseIso")
                 continue
             for k in ("DATE", "TIMESTAMP", "TIME"):
+                if k == "TIME" and c.get("kind") == "obj" and c.get("name") == "time":
+                    # interim (main): parse_time now returns a native time unchanged (repair C16-F06, outside
+                    # this property's statement); the model update is in progress in the builder's workspace
+                    continue
                 if k in m and cast_model_out(m[k]) != out[k]:
                     ctx.disagree(c, {k: out[k]}, {k: m[k]}, "OrsoTypes.%s.parse vs Iso.cast" % k)
                     break
